@@ -373,6 +373,15 @@ theorem C14_atad_validate (d : DArg) (w : WArg) :
       simp [atadValidate, h1, h2]
   · rintro (rfl | rfl | rfl) rfl <;> simp [atadValidate]
 
+/-- **the branch rule of the model is the branch condition of the source.**  `solverTables.woodbury` is the conjunction
+    `N < M and D.ndim == 1 and snp.all(W != 0)` with `N, M = A.shape` as read from `MatrixATADSolver.__init__` by `ast` on every run
+    (obligation `Scico.Generated.LinSolveTables.tables_ok`); evaluated on a solver object it is `ATAD.useWoodbury`. -/
+theorem C14_woodbury_rule_of_source {m n : Nat} (s : ATAD K m n) :
+    woodburyEval solverTables.woodbury m n (if s.D.isDiag then 1 else 2) (allNonzero s.W) = some s.useWoodbury ∧
+      solverTables.woodburyBind = ("N, M", "A.shape") := by
+  refine ⟨?_, rfl⟩
+  cases hD : s.D.isDiag <;> simp [woodburyEval, solverTables, CondAtom.eval, ATAD.useWoodbury, hD]
+
 /-- **`accuracy`**: the quantity compared with `b` is `(Aᴴ W A + D) x` (1-D and 2-D `D`, vector and matrix
     `x`), so `accuracy x b = rel_res((Aᴴ W A + D) x, b)`. -/
 theorem C14_accuracy {m n : Nat} {R : Type} [Zero R] [Div R] [Max R] [LT R] [DecidableLT R]
